@@ -559,6 +559,9 @@ class NN:
             return self._accum_space(q, upd, c[1], c[2])
         if is_call(c, "builtins.filter") and len(c[2]) == 2:
             return self.coll_space(q, c[2][1])
+        if h == "comp" and c[1] in ("list", "gen", "set") and len(c[3]) == 1 and strip(c[2]) == c[3][0][0]:
+            # [y for y in C if cond(y)]: a filtered copy of C
+            return self.coll_space(q, c[3][0][0][3])
         if is_call(c, "itertools.chain.from_iterable") and len(c[2]) == 1:
             # the union of the member collections: members of a comprehension whose element is a collection of positions
             inner = strip(c[2][0])
@@ -743,6 +746,25 @@ class NN:
                     site = Site(q, e.node, fold(gm(trip[0]), m), fold(gm(trip[1]), m), fold(gm(d_term), m), g2, loops, kind, e["old"])
                     site.extra["asserted"] = self.fold_guards([(gm(g), pol) for g, pol in claims], m) or []
                     out.append(site)
+        # a worker that returns its triplets as a comprehension:  return [(i, j, d) for ... if ...]
+        from .rules import lift_ite
+        from .ssa import leaves
+        try:
+            rl = leaves(lift_ite(strip_all(s.ret)))
+        except AnalysisBroken:
+            rl = []
+        for path, leaf in rl:
+            v = strip(leaf)
+            while is_call(v, "builtins.list") and len(v[2]) == 1:
+                v = strip(v[2][0])
+            if head(v) == "comp" and v[1] in ("list", "gen") and head(strip(v[2])) == "tuple" and len(strip(v[2])[1]) == 3:
+                trip = strip(v[2])[1]
+                xg = [(c, True) for _, conds in v[3] for c in conds]
+                g2 = self.fold_guards(list(path) + xg, m, q)
+                if g2 is None:
+                    continue
+                loops = [(None, fold(elem[3], m)) for elem, _ in v[3]]
+                out.append(Site(q, s.func.node, fold(trip[0], m), fold(trip[1], m), fold(trip[2], m), g2, loops, "comp", None))
         return out
 
     def _get_as_subscript(self, q, t):
